@@ -132,15 +132,16 @@ pub(crate) fn c06_history<S: SubjApi>(nops: usize) {
   let mut unsubs: Vec<Option<Unsub>> = (0..NS).map(|_| None).collect();
   let mut want: Vec<Vec<Ev>> = vec![vec![]; NS];
   let mut done = false;
+  let mut closed_seen = false;
   e::note(format!("{}", S::name()));
-  for _ in 0..nops {
+  'ops: for _ in 0..nops {
     let op = e::choose(8);
     match op {
       0 => {
         // subscribe the next unused subscriber
         let i = match st.iter().position(|s| *s == SubSt::Unused) {
           Some(i) => i,
-          None => e::prune(),
+          None => break 'ops,
         };
         e::note(format!("subscribe s{}", i));
         unsubs[i] = Some(subj.sub(probes[i]));
@@ -150,7 +151,7 @@ pub(crate) fn c06_history<S: SubjApi>(nops: usize) {
         // subscribe i, which on its first item subscribes j from inside the callback
         let un: Vec<usize> = (0..NS).filter(|i| st[*i] == SubSt::Unused).collect();
         if un.len() < 2 {
-          e::prune();
+          break 'ops;
         }
         let (i, j) = (un[0], un[1]);
         e::note(format!("subscribe s{} (subscribes s{} from inside its first callback)", i, j));
@@ -161,7 +162,7 @@ pub(crate) fn c06_history<S: SubjApi>(nops: usize) {
       2 => {
         let cands: Vec<usize> = (0..NS).filter(|i| unsubs[*i].is_some()).collect();
         if cands.is_empty() {
-          e::prune();
+          break 'ops;
         }
         let i = cands[e::choose(cands.len() as u32) as usize];
         e::note(format!("unsubscribe s{}", i));
@@ -236,6 +237,19 @@ pub(crate) fn c06_history<S: SubjApi>(nops: usize) {
             probes[i].silence();
           }
           done = true;
+        }
+      }
+    }
+    // C17: is_closed() of the subject is monotone, and once it is true nothing is delivered
+    {
+      let c = subj.s_is_closed();
+      if closed_seen && !c {
+        e::fail(&format!("{}/is_closed-went-back-to-false", S::name()), || "the subject's is_closed() returned true and later false".to_string());
+      }
+      if c && !closed_seen {
+        closed_seen = true;
+        for p in &probes {
+          p.forbid("delivery-after-subject-is_closed");
         }
       }
     }
@@ -367,7 +381,7 @@ pub(crate) fn c12_history<B: BehApi>(nops: usize) {
   let mut armed: Option<(usize, usize)> = None; // (host, dependant)
   PEEKED.with(|x| *x.borrow_mut() = None);
   e::note(B::name().to_string());
-  for _ in 0..nops {
+  'ops: for _ in 0..nops {
     let which = e::choose(clones.len() as u32) as usize;
     let op = e::choose(9);
     match op {
@@ -407,7 +421,7 @@ pub(crate) fn c12_history<B: BehApi>(nops: usize) {
       }
       8 => {
         if used + 2 > NS || done || armed.is_some() {
-          e::prune();
+          break 'ops;
         }
         let (i, j) = (used, used + 1);
         used += 2;
@@ -419,7 +433,7 @@ pub(crate) fn c12_history<B: BehApi>(nops: usize) {
       }
       2 => {
         if clones.len() >= 3 {
-          e::prune();
+          break 'ops;
         }
         e::note(format!("clone c{}", which));
         let c = clones[which].clone();
@@ -427,7 +441,7 @@ pub(crate) fn c12_history<B: BehApi>(nops: usize) {
       }
       3 => {
         if used >= NS || done {
-          e::prune();
+          break 'ops;
         }
         let i = used;
         used += 1;
@@ -439,7 +453,7 @@ pub(crate) fn c12_history<B: BehApi>(nops: usize) {
       4 => {
         let cands: Vec<usize> = (0..NS).filter(|i| unsubs[*i].is_some()).collect();
         if cands.is_empty() {
-          e::prune();
+          break 'ops;
         }
         let i = cands[e::choose(cands.len() as u32) as usize];
         e::note(format!("unsubscribe s{}", i));
@@ -459,7 +473,7 @@ pub(crate) fn c12_history<B: BehApi>(nops: usize) {
       }
       6 | _ => {
         if done {
-          e::prune();
+          break 'ops;
         }
         let ev = if op == 6 { Ev::Complete } else { Ev::Err(Val::var()) };
         e::note(format!("c{}.{}", which, world::show_ev(&ev)));
@@ -587,16 +601,13 @@ pub(crate) fn c11_history(kind: ShareKind, nops: usize) {
       }
     }
   };
-  for _ in 0..nops {
+  let mut was_zero = false;
+  'ops: for _ in 0..nops {
     let op = e::choose(4);
     match op {
       0 => {
         if used >= NS {
-          e::prune();
-        }
-        if ever_subscribed && !active.iter().any(|a| *a) && kind != ShareKind::PublishLocal {
-          // re-subscription after the ref-count dropped to zero: not specified by the property
-          e::prune();
+          break 'ops; // nothing left to do for this operation: the history ends here
         }
         let i = used;
         used += 1;
@@ -635,24 +646,33 @@ pub(crate) fn c11_history(kind: ShareKind, nops: usize) {
       1 => {
         let cands: Vec<usize> = (0..NS).filter(|i| unsubs[*i].is_some()).collect();
         if cands.is_empty() {
-          e::prune();
+          break 'ops;
         }
         let i = cands[e::choose(cands.len() as u32) as usize];
         e::note(format!("unsubscribe s{}", i));
         (unsubs[i].take().unwrap())();
         probes[i].silence();
+        let was_active = active[i];
         active[i] = false;
+        if was_active && !active.iter().any(|a| *a) && kind != ShareKind::PublishLocal {
+          was_zero = true; // the ref-count dropped to zero: whether the source stays connected is not specified
+        }
       }
       2 => {
         // a source event (hot source only)
         if cold {
-          e::prune();
+          break 'ops;
         }
         let ev = match e::choose(3) {
           0 => Ev::Next(Val::var()),
           1 => Ev::Complete,
           _ => Ev::Err(Val::var()),
         };
+        if was_zero && !matches!(ev, Ev::Next(_)) {
+          // after a zero-ref-count moment only items are judged (through the upstream tap): a terminal
+          // may or may not still reach the shared subject
+          break 'ops;
+        }
         e::note(format!("source.{}", world::show_ev(&ev)));
         let taps_before = world::counter(1);
         let had_subscribers = active.iter().any(|a| *a);
@@ -660,7 +680,8 @@ pub(crate) fn c11_history(kind: ShareKind, nops: usize) {
           ShareKind::ShareThreads => cat::feed_hot_t(0, &ev),
           _ => cat::feed_hot(0, &ev),
         };
-        if delivered && !src_done {
+        let tapped = world::counter(1) != taps_before;
+        if delivered && !src_done && (tapped || !matches!(ev, Ev::Next(_)) || !was_zero) {
           for i in 0..NS {
             if active[i] {
               want[i].push(ev.clone());
@@ -693,9 +714,9 @@ pub(crate) fn c11_history(kind: ShareKind, nops: usize) {
                 src_done = !matches!(s.term, Tm::None);
               }
             }
-            None => e::prune(),
+            None => break 'ops,
           },
-          _ => e::prune(),
+          _ => break 'ops,
         }
       }
     }
@@ -1082,7 +1103,7 @@ fn drive_c05(op: FlatOp, specs: &[InnerSpec], nsteps: usize, limit: usize, probe
       }
     }
   }
-  for step in 0..nsteps {
+  'steps: for step in 0..nsteps {
     if step == cut_step {
       if let Some(u) = cut.take() {
         e::note("unsubscribe()".to_string());
@@ -1107,7 +1128,7 @@ fn drive_c05(op: FlatOp, specs: &[InnerSpec], nsteps: usize, limit: usize, probe
     let c = e::choose(3 + hot_live.len() as u32 * 3);
     if c == 0 {
       if emitted >= specs.len() || outer_done {
-        e::prune();
+        break 'steps;
       }
       let k = emitted;
       emitted += 1;
@@ -1137,7 +1158,7 @@ fn drive_c05(op: FlatOp, specs: &[InnerSpec], nsteps: usize, limit: usize, probe
       }
     } else if c == 1 || c == 2 {
       if outer_done {
-        e::prune();
+        break 'steps;
       }
       outer_done = true;
       let x = Val::var();
@@ -1256,8 +1277,8 @@ pub fn harnesses() -> Vec<HarnessDef> {
   fn b6(t: bool) -> String {
     format!("{} operations from subscribe / subscribe-with-nested-subscribe / unsubscribe-one / next / error / complete / retain / unsubscribe-subject over 3 subscribers, emission through the subject or a clone", if t { 7 } else { 5 })
   }
-  add("c06_subject", vec!["C06", "C01"], "Subject: all operation histories vs the subscriber-set model; len/is_empty/is_finished after a terminal", b6, Box::new(|t| c06_history::<Subject<'static, Val, Val>>(if t { 7 } else { 5 })), 2_000_000, 30_000_000, true);
-  add("c06_subject_threads", vec!["C06"], "SubjectThreads, same histories (single logical thread)", b6, Box::new(|t| c06_history::<SubjectThreads<Val, Val>>(if t { 7 } else { 5 })), 2_000_000, 30_000_000, true);
+  add("c06_subject", vec!["C06", "C01", "C17"], "Subject: all operation histories vs the subscriber-set model; len/is_empty/is_finished after a terminal", b6, Box::new(|t| c06_history::<Subject<'static, Val, Val>>(if t { 7 } else { 5 })), 2_000_000, 30_000_000, true);
+  add("c06_subject_threads", vec!["C06", "C17"], "SubjectThreads, same histories (single logical thread)", b6, Box::new(|t| c06_history::<SubjectThreads<Val, Val>>(if t { 7 } else { 5 })), 2_000_000, 30_000_000, true);
   add("c06_mutref_item", vec!["C06"], "MutRefItemSubject", b6, Box::new(|t| c06_history::<MutRefItemSubject<'static, Val, Val>>(if t { 6 } else { 4 })), 2_000_000, 10_000_000, true);
   add("c06_mutref_err", vec!["C06"], "MutRefErrSubject", b6, Box::new(|t| c06_history::<MutRefErrSubject<'static, Val, Val>>(if t { 6 } else { 4 })), 2_000_000, 10_000_000, true);
   add("c06_mutref_item_err", vec!["C06"], "MutRefItemErrSubject", b6, Box::new(|t| c06_history::<MutRefItemErrSubject<'static, Val, Val>>(if t { 6 } else { 4 })), 2_000_000, 10_000_000, true);
